@@ -549,10 +549,27 @@ class ConcEnv:
 
 # ---------------------------------------------------------------- explorer
 
+class PathTimeout(BaseException):
+    """a single path exceeded its wall-clock budget (inconclusive)"""
+
+
+def _alarm(signum, frame):
+    raise PathTimeout()
+
+
+PATH_BUDGET_S = 300
+
+
 def run_path(fn, params, prefix, stats, solver_timeout_ms):
     """Run one path; returns (pending prefixes, counterexamples)."""
+    import signal
     env = SymEnv(prefix, stats, solver_timeout_ms)
     _Ctx.cur = env
+    try:
+        signal.signal(signal.SIGALRM, _alarm)
+        signal.alarm(PATH_BUDGET_S)
+    except (ValueError, AttributeError):
+        pass
     try:
         try:
             fn(env, **params)
@@ -565,6 +582,9 @@ def run_path(fn, params, prefix, stats, solver_timeout_ms):
             stats.aborted += 1
         except Inconclusive:
             pass
+        except PathTimeout:
+            stats.inconclusive += 1
+            stats.count("path_timeouts")
         except Exception as e:      # escaped from the code under test
             try:
                 m = env._model()
@@ -575,6 +595,10 @@ def run_path(fn, params, prefix, stats, solver_timeout_ms):
             except (Abort, Inconclusive):
                 stats.aborted += 1
     finally:
+        try:
+            signal.alarm(0)
+        except (ValueError, AttributeError):
+            pass
         _Ctx.cur = None
     return env.pending, env.cex
 
